@@ -1,8 +1,53 @@
 """Bounded stand-in for C04: model equality after random operation histories on real projects (never counted as proved)."""
+import json
+import os
+
 from .common import Budget
 from .fsharness import run_histories
 
 RULE = "a case is one executed operation of a random history; non-trivial/distinct = distinct (operation kind, variant) pairs that actually executed"
+
+
+def copies_follow_check():
+    """'every live copy of the handle follows': shallow copies (copy.copy) made from a materialised and from a lazy handle, the state point
+    changed through the original or through the copy, by every route; afterwards all handles of the group describe the new job"""
+    import copy
+    import logging
+    import signac
+    from .common import project_scratch
+    logging.disable(logging.CRITICAL)
+    out = []
+    routes = {"setitem": lambda h: h.sp.__setitem__("a", 2), "attr": lambda h: setattr(h.sp, "a", 2), "assign": lambda h: setattr(h, "statepoint", {"a": 2, "b": 0}),
+              "update_statepoint": lambda h: h.update_statepoint({"c": 3}), "del": lambda h: h.sp.__delitem__("b"), "nested": lambda h: setattr(h.sp.n, "x", 9)}
+    for made_from in ("materialised", "lazy"):
+        for through in ("original", "copy"):
+            for route, act in routes.items():
+                with project_scratch() as p:
+                    j0 = p.open_job({"a": 1, "b": 1, "n": {"x": 1}}).init()
+                    j0.doc["d"] = 1
+                    if made_from == "materialised":
+                        orig = j0
+                        orig.statepoint()
+                    else:
+                        orig = signac.Project(p.path).open_job(id=j0.id)      # opened by id: the state point is not loaded yet
+                    c = copy.copy(orig)
+                    try:
+                        act(orig if through == "original" else c)
+                    except Exception as e:
+                        out.append((f"{made_from}:{through}:{route}", f"state point change ({route}) through the {through} raised {type(e).__name__}: {e}"))
+                        continue
+                    ids = sorted(os.listdir(p.workspace))
+                    bad = None
+                    if len(ids) != 1:
+                        bad = f"the workspace holds {ids}"
+                    elif orig.id != ids[0] or c.id != ids[0]:
+                        bad = f"the job is now {ids[0][:8]}, the original handle says {orig.id[:8]}, its shallow copy says {c.id[:8]}"
+                    elif json.loads(json.dumps(orig.statepoint())) != json.loads(json.dumps(c.statepoint())) or os.path.realpath(orig.path) != os.path.realpath(c.path) \
+                            or json.loads(json.dumps(c.doc())) != {"d": 1} or json.loads(json.dumps(orig.doc())) != {"d": 1}:
+                        bad = "state point / path / document seen through the two handles differ"
+                    if bad:
+                        out.append((f"{made_from}:{through}:{route}", f"a shallow copy made from a {made_from} handle, state point changed ({route}) through the {through}: {bad}"))
+    return out
 
 
 def run(tier="quick", seed=0):
@@ -17,4 +62,9 @@ def run(tier="quick", seed=0):
         r["failures"].append({"key": "doc:rekey-inside-buffer:" + sig, "description": msg,
                               "script": script_header() + "sys.path.insert(0, '/verif')\nfrom pybound.c05 import rekey_in_buffer_check\nr = rekey_in_buffer_check()\nassert not r, r\n"})
     r["evaluations"] = r.get("evaluations", 0) + 3
+    for sig, msg in copies_follow_check():
+        r["failures"].append({"key": "copy:does-not-follow:" + sig, "description": msg,
+                              "script": script_header() + "sys.path.insert(0, '/verif')\nfrom pybound.c04 import copies_follow_check\nr = copies_follow_check()\nassert not r, r\n"})
+    r["evaluations"] += 24
+    r["scope"] += "; shallow copies (made from a materialised / a lazy handle) x change through the original / the copy x 6 routes: every handle of the group describes the new job"
     return r
